@@ -5,6 +5,7 @@ package h
 import (
 	"bytes"
 	"fmt"
+	"github.com/rminnich/go9p"
 	"os"
 	"path/filepath"
 	"strings"
@@ -160,6 +161,9 @@ func c18Exec(x *Ctx) {
 			x.Probe("relative-export-root")
 		}
 	}
+	if c.Seed%4 == 2 {
+		os.MkdirAll(filepath.Join(u.Base, "decoy", "export", "d"), 0o755) // the tree of a second server (below)
+	}
 	outsideBefore := c18Outside(u)
 	var dirs, real []string
 	for _, e := range tree {
@@ -181,6 +185,26 @@ func c18Exec(x *Ctx) {
 	}
 	rt.Go(rt.SiteSpawn, func() {
 		rt.SetName("attacker")
+		if c.Seed%4 == 2 {
+			// the process serves a second tree as well (another Ufs with its own root), and somebody has walked
+			// '..' there before: what one server learns about its root is nothing to the other
+			decoy := new(go9p.Ufs)
+			decoy.Dotu, decoy.Msize, decoy.Id = true, 8192, "decoy"
+			decoy.Root = filepath.Join(u.Base, "decoy", "export")
+			os.MkdirAll(filepath.Join(decoy.Root, "d"), 0o755)
+			if decoy.Start(decoy) {
+				cs, cc := rt.NewPipePair(0, "srv90", "clnt90")
+				rt.Go(rt.SiteSpawn, func() { rt.SetName("decoy-connhost"); decoy.NewConn(cs) })
+				dp := NewClntPeer(x, cc)
+				dp.StartReader()
+				if rawAttach(dp, 8192, true, "") {
+					dp.Call(&Msg{Type: Twalk, Tag: 5, Fid: 0, Newfid: 1, Wname: []string{"..", "d", ".."}})
+					dp.Call(&Msg{Type: Twalk, Tag: 6, Fid: 0, Newfid: 2, Wname: []string{"d", "..", ".."}})
+				}
+				cc.Close()
+				x.Probe("second-ufs-server-in-the-process")
+			}
+		}
 		nat := int(c.cfg("nattacks"))
 		for k := 0; k < nat; k++ {
 			sc := u.Raw(int(c.cfg("seg")))
